@@ -106,14 +106,15 @@ static void note_growth(int a, int id, int before) {
 }
 /* after a growth: read every slot that can be read without side effects and compare (deterministic detection) */
 static int verify_after_growth(int a) {
+    int res = 1;
     for (int i = 0; i < Q.oa[a]->known_infos && i < MAXID; i++) {
         int n = Q.id_name[i]; if (n < 0) continue;
         slot_t *s = &Q.M[a][i];
         if ((Q.name_flags[n] & 1) && (s->v == NULL || s->amb)) continue;       /* get would construct */
         void *g = parsec_info_get(Q.oa[a], i);
-        int r = observe(a, i, "get-after-growth", g); if (r != 1) return r;
+        int r = observe(a, i, "get-after-growth", g); if (r == 0) return 0; if (r == 2) res = 2;    /* keep going: old slots and new slots fail differently */
     }
-    return 1;
+    return res;
 }
 static void seq_teardown(int abandon) {
     if (!abandon) {
@@ -145,7 +146,6 @@ static int run_seq(int argc, char **argv) {
             int nalive = 0; for (int a = 0; a < MAXA; a++) nalive += Q.alive[a];
             if (t < (Q.nlive < 3 ? 45 : 14)) {                                   /* register */
                 int n = (int)vf_randn(&r, NNAMES); int flags = (int)vf_randn(&r, 4); char nm[16]; snprintf(nm, sizeof nm, "n%d", n);
-                if (Q.name_id[n] < 0 && hole_pending && !holes_ok) { k--; hole_pending = 0; continue; }   /* (never reached: holes only arise when allowed) */
                 int id = parsec_info_register(Q.nfo, nm, (flags & 2) ? dtor_cb : NULL, &Q.names[n], (flags & 1) ? ctor_cb : NULL, &Q.names[n], &Q.name_flags[n]);
                 log_op(O_REG, 0, id, n, (void *)(uintptr_t)flags, 0, 0);
                 if (Q.name_id[n] >= 0) { sc_reg_dup++; if (id != PARSEC_INFO_ID_UNDEFINED) { vf_violation("info:register:name-twice", "registering the live name n%d again returned id %d instead of PARSEC_INFO_ID_UNDEFINED", n, id); ok = 0; } continue; }
@@ -177,7 +177,11 @@ static int run_seq(int argc, char **argv) {
                         else { s->v = NULL; s->amb = 0; }
                     } else if (s->v) s->amb = 1;                              /* stays, or is cleared: both acceptable */
                 }
-                if (ok == 1 && (Q.name_flags[n] & 2)) for (int d = 0; d < tl_ndtor && d < 64; d++) if (!used[d]) { vf_violation("info:destructor:spurious", "unregister(%d) ran the destructor on %p which no live array holds for that id", id, tl_dtor[d].val); ok = 0; break; }
+                if (ok == 1 && (Q.name_flags[n] & 2)) for (int d = 0; d < tl_ndtor && d < 64; d++) if (!used[d]) {
+                    int ga = -1; for (int a = 0; a < MAXA; a++) if (Q.alive[a] && Q.M[a][id].grown) ga = a;
+                    if (ga >= 0) ok = mismatch(ga, id, "unregister-destructor", tl_dtor[d].val, NULL, 0);     /* a slot of that id went through a growth: value garbled by it */
+                    else { vf_violation("info:destructor:spurious", "unregister(%d) ran the destructor on %p which no live array holds for that id", id, tl_dtor[d].val); ok = 0; }
+                    break; }
                 if (ok == 1 && !(Q.name_flags[n] & 2) && tl_ndtor) { vf_violation("info:destructor:spurious", "unregister(%d) ran a destructor although none was registered", id); ok = 0; }
                 Q.id_name[id] = -1; Q.name_id[n] = -1; Q.nlive--;
             } else if (t < 25) {                                                 /* unregister of an id that is not registered */
@@ -194,12 +198,12 @@ static int run_seq(int argc, char **argv) {
                 if (!Q.alive[a]) seq_new_array(a);
                 else if (nalive > 1 || vf_chance(&r, 300)) { log_op(O_DELA, a, 0, Q.oa[a]->known_infos, 0, 0, 0); PARSEC_OBJ_DESTRUCT(Q.oa[a]); free(Q.oa[a]); Q.oa[a] = NULL; Q.alive[a] = 0; sc_dela++; }
             } else if (Q.nlive) {                                                /* slot operation */
-                int a = (int)vf_randn(&r, MAXA), id = (int)vf_randn(&r, MAXID), tries = 0;
-                for (; tries < 2 * MAXA * MAXID; tries++) {      /* a live array and a live id; without --growth only slots that need no growth of a non-empty array */
-                    if (Q.alive[a] && Q.id_name[id] >= 0 && (growth_ok || id < Q.oa[a]->known_infos || Q.oa[a]->known_infos <= 0)) break;
-                    id = (id + 1) % MAXID; if (id == 0) a = (a + 1) % MAXA;
-                }
-                if (tries == 2 * MAXA * MAXID) { int a2 = 0; while (a2 < MAXA && Q.alive[a2]) a2++; if (a2 < MAXA) seq_new_array(a2); continue; }
+                /* a live array and a live id, uniformly; without --growth only slots that need no growth of a non-empty array */
+                short cand[MAXA * MAXID]; int ncand = 0;
+                for (int a2 = 0; a2 < MAXA; a2++) if (Q.alive[a2]) for (int i2 = 0; i2 < MAXID; i2++)
+                    if (Q.id_name[i2] >= 0 && (growth_ok || i2 < Q.oa[a2]->known_infos || Q.oa[a2]->known_infos <= 0)) cand[ncand++] = (short)(a2 * MAXID + i2);
+                if (!ncand) { int a2 = 0; while (a2 < MAXA && Q.alive[a2]) a2++; if (a2 < MAXA) seq_new_array(a2); continue; }
+                int pick2 = cand[vf_randn(&r, (uint32_t)ncand)], a = pick2 / MAXID, id = pick2 % MAXID;
                 slot_t *s = &Q.M[a][id]; int before = Q.oa[a]->known_infos, n = Q.id_name[id], w = (int)vf_randn(&r, 100);
                 if (w < 40) {
                     void *v = vf_chance(&r, 80) ? NULL : mkval(++vctr);
@@ -230,7 +234,7 @@ static int run_seq(int argc, char **argv) {
                         if (ok == 1 && res == old) { vf_violation("info:test-and-set:not-replaced", "test_and_set(A%d,%d) found the expected value %p but did not replace it", a, id, old); ok = 0; }
                     }
                 }
-                if (ok == 1 && before > 0 && Q.oa[a]->known_infos > before) ok = verify_after_growth(a);
+                if (ok != 0 && before > 0 && Q.oa[a]->known_infos > before) { int r2 = verify_after_growth(a); if (r2 != 1) ok = r2; }
             }
             if ((sc_ops & 63) == 0) VF_TICK();
         }
@@ -304,12 +308,12 @@ static void conc_worker(int tid, int nt, void *arg) {
 
 /* ---- WGL per slot */
 static sop_t H[64]; static int HN; static long wgl_nodes, wgl_budget;
-typedef struct { uint64_t mask, val; } memo_t; static memo_t *memo; static size_t memo_cap, memo_n;
+typedef struct { uint64_t mask, val; uint32_t gen; } memo_t; static memo_t *memo; static size_t memo_cap, memo_n; static uint32_t memo_gen = 1;
 static int memo_seen(uint64_t mask, uint64_t val) {
     size_t i = (size_t)(vf_mix(mask, val) % memo_cap);
     for (;;) {
-        if (memo[i].mask == 0 && memo[i].val == 0) { if (memo_n * 2 > memo_cap) return 0; memo[i].mask = mask; memo[i].val = val ^ 0x5bd1e995; memo_n++; return 0; }
-        if (memo[i].mask == mask && memo[i].val == (val ^ 0x5bd1e995)) return 1;
+        if (memo[i].gen != memo_gen) { if (memo_n * 2 > memo_cap) return 0; memo[i].mask = mask; memo[i].val = val; memo[i].gen = memo_gen; memo_n++; return 0; }
+        if (memo[i].mask == mask && memo[i].val == val) return 1;
         i = (i + 1) % memo_cap;
     }
 }
@@ -362,7 +366,7 @@ static int run_conc(int argc, char **argv) {
         G.hno = h; G.growth = vf_chance(&mr, (uint32_t)pm_growth);
         /* quiescent set-up: registry, shared infos, arrays (one created before any registration), some preset values */
         G.nfo = malloc(sizeof(parsec_info_t)); PARSEC_OBJ_CONSTRUCT(G.nfo, parsec_info_t);
-        G.na = 1 + (int)vf_randn(&mr, 3); G.nshared = 1 + (int)vf_randn(&mr, 3); int early = (int)vf_randn(&mr, (uint32_t)G.na + 1);   /* arrays [0,early) are created empty */
+        G.na = vf_chance(&mr, 500) ? 1 : 1 + (int)vf_randn(&mr, 3); G.nshared = vf_chance(&mr, 400) ? 1 : 1 + (int)vf_randn(&mr, 3); int early = (int)vf_randn(&mr, (uint32_t)G.na + 1);   /* arrays [0,early) are created empty */
         uint64_t init[MAXA][8]; memset(init, 0, sizeof init); int size0[MAXA];
         for (int a = 0; a < early; a++) { G.oa[a] = malloc(sizeof(parsec_info_object_array_t)); PARSEC_OBJ_CONSTRUCT(G.oa[a], parsec_info_object_array_t); parsec_info_object_array_init(G.oa[a], G.nfo, &G.cons_obj[a]); }
         for (int s = 0; s < G.nshared; s++) { char nm[16]; snprintf(nm, sizeof nm, "s%d", s); G.shared_flags[s] = (int)vf_randn(&mr, 4);
@@ -373,14 +377,14 @@ static int run_conc(int argc, char **argv) {
         for (int t = 0; t < G.nt; t++) G.nreg[t] = 0;
         vf_spinbar_wait(&G.bar); vf_spinbar_wait(&G.bar);      /* run one history */
         hist++;
-        int any_resize = 0, live_growth = 0; for (int a = 0; a < G.na; a++) { if (G.oa[a]->known_infos > size0[a]) { any_resize = 1; if (size0[a] > 0) live_growth = 1; } }
+        int any_resize = 0, live_growth = 0; for (int a = 0; a < G.na; a++) { if (G.oa[a]->known_infos > size0[a]) { any_resize = 1; if (G.oa[a]->known_infos > G.nshared) live_growth = 1; } }   /* beyond the shared ids: ids registered during the history made it grow */
         resized_hist += any_resize; live_growth_hist += live_growth;
         int bad = 0, soft = 0, hist_overlap = 0; uint64_t sig = 0x4141;
         /* registry oracles: lookups of shared names, ids handed out during the history distinct from each other and from the shared ids */
         { int ids[MAXT * MAXOPS + 8], nid = 0; for (int s = 0; s < G.nshared; s++) ids[nid++] = G.shared_id[s];
           for (int t = 0; t < G.nt; t++) for (int k = 0; k < G.nreg[t]; k++) { int id = G.reg_id[t][k]; registers++;
               if (id < 0) { vf_violation("info:register:bad-id", "conc: registering a fresh name returned %d", id); bad = 1; break; }
-              for (int q = 0; q < nid; q++) if (ids[q] == id) { vf_violation("info:register:duplicate-live-id", "conc: two names registered in the same history both got id %d", id); bad = 1; break; }
+              for (int q = 0; q < nid; q++) if (ids[q] == id) { vf_violation("info:register:duplicate-id-concurrent", "conc: two names registered in the same history both got id %d", id); bad = 1; break; }
               ids[nid++] = id; } }
         for (int t = 0; t < G.nt && !bad; t++) for (int k = 0; k < G.nlog[t]; k++) { cop_t *o = &G.log[t][k]; totops++;
             if (o->type == C_LOOKUP) { lookups++; if ((int)(int64_t)o->r != G.shared_id[o->id]) { vf_violation("info:lookup:wrong-id", "conc: lookup(s%d) returned %d, registration gave %d", o->id, (int)(int64_t)o->r, G.shared_id[o->id]); bad = 1; break; } } }
@@ -406,13 +410,13 @@ static int run_conc(int argc, char **argv) {
             int ov = 0; for (int i = 0; i < HN && !ov; i++) for (int j = 0; j < HN; j++) if (H[i].tid != H[j].tid && H[j].tid != 99 && H[i].tid != 99 && H[i].inv < H[j].resp && H[j].inv < H[i].resp) { ov = 1; break; }
             qsort(H, (size_t)HN, sizeof(sop_t), cmp_inv);
             for (int i = 0; i < HN; i++) sig = vf_mix(sig, (uint64_t)(H[i].tid * 8 + H[i].kind) + 1024 * (uint64_t)a + 65536 * (uint64_t)(si + 1));
-            memset(memo, 0, memo_cap * sizeof(memo_t)); memo_n = 0; wgl_nodes = 0;
+            memo_gen++; memo_n = 0; wgl_nodes = 0;
             uint64_t i0 = si >= 0 ? init[a][si] : 0;
             int r = wgl(0, i0); slots_checked++; if (wgl_nodes > maxnodes) maxnodes = wgl_nodes;
             if (r == 1) { lin++; if (ov) { overlapped++; hist_overlap = 1; } if (ov && samples < 3) { samples++; print_slot_history("sample", a, id, i0); } }
             else if (r < 0) incon++;
-            else if (size0[a] > 0 && G.oa[a]->known_infos > size0[a]) {     /* the array grew while it held slots: the recorded defect of the unchanged tree */
-                soft_violation(id < size0[a] ? 0 : 1, "conc: slot (A%d,id %d) of an array that grew from %d to %d slots during the history has no linearization (a value was lost or a new slot was not NULL)", a, id, size0[a], G.oa[a]->known_infos);
+            else if (G.growth && G.oa[a]->known_infos > G.nshared) {     /* the array grew for ids registered during the history: the recorded defect of the unchanged tree */
+                soft_violation(id < G.nshared ? 0 : 1, "conc: slot (A%d,id %d) of an array that grew (%d slots at the start, %d at the end, %d shared ids) while threads registered new infos has no linearization (a value was lost or a new slot was not NULL)", a, id, size0[a], G.oa[a]->known_infos, G.nshared);
                 print_slot_history("known-defect", a, id, i0); soft = 1;
             } else { vf_violation("info:slot:not-linearizable", "conc: history %ld slot (A%d,id %d): %d operations of %d threads have no linearization against a register", h, a, id, HN, G.nt); print_slot_history("not-linearizable", a, id, i0); bad = 1; }
         }
